@@ -66,6 +66,36 @@ CLAIMS = {
              "design); A-size for legacy-load displacements; call/exit/prologue are decided under C07/C08/C09.",
         technique="symbolic byte-template extraction from THIR + reference x86 decoder/interpreter, compared with interpreter terms",
         design="5/C03"),
+    "C04": dict(
+        category="translation_validation",
+        text="Per-opcode template validation: the Cranelift translate arm is evaluated symbolically for each (dst, src) pair, its IR "
+             "builder calls are replayed with the documented InstBuilder semantics, value-level selects are split into paths, and the "
+             "effect on the register variables, stores, atomics and successor blocks must equal the interpreter's summary. Local "
+             "calls reach Err; helper calls pass r1..r5 and define r0. quick: 6 pairs per opcode; thorough: all 121. F01 known; F33 "
+             "(32-bit compare for 64-bit jumps) was found by this check and fixed.",
+        note=TRUST + "clmodel.py (InstBuilder semantics from the 0.127 docs) is the oracle; Cranelift's lowering trusted; little-endian "
+             "64-bit host; bounds checks decided under C11.",
+        technique="THIR symbolic evaluation + replay of Cranelift IR builder calls against reference semantics, compared with interpreter terms",
+        design="5/C04"),
+    "C11": dict(
+        category="proof",
+        text="In every memory opcode's translation each load/store/atomic_rmw is immediately guarded by trapz(p) where p, as a "
+             "term, equals the reference predicate no-wrap & (stack | mem&has_mem | mbuf&has_mbuf) for the same start = base+sext(off) "
+             "and the access's own byte width; raw memory builder calls occur only in the three guarded wrappers; the prelude binds the "
+             "region variables to (param, param+len) and the 512-byte stack slot.",
+        note=TRUST + "that a Cranelift trap aborts before the guarded access is Cranelift's contract.",
+        technique="replay of Cranelift IR builder calls to terms; predicate equality with a reference normal form",
+        design="5/C11"),
+    "C18": dict(
+        category="proof",
+        text="Structural necessary condition in all three engines: the only memory effect of XADD is one atomic RMW primitive of the "
+             "instruction's width on dst+off with trunc_w(src): interpreter fetch_add behind bounds and alignment tests (misaligned -> "
+             "Err, no effect), JIT `lock add` for all 121 register pairs (lock prefix and REX.W checked by the decoder), Cranelift "
+             "atomic_rmw Add. The no-lost-update conclusion for every schedule rests on the primitives' atomicity, which is NOT decided here.",
+        note=TRUST + "atomicity of AtomicU32/U64::fetch_add, x86 LOCK and Cranelift atomic_rmw is trusted (hardware/core contract); "
+             "schedules are not explored.",
+        technique="per-engine effect summaries (THIR symbolic evaluation, x86 decoder, Cranelift replay) restricted to the atomic arms",
+        design="5/C18"),
     "C05": dict(
         category="proof",
         text="Assume-guarantee closure: every panic-capable site reachable from the interpreter entry (MIR asserts, unwrap/index/"
